@@ -12,7 +12,8 @@ from select import select
 
 import xfrm
 from ikesa import IkeSa
-from message import (Message, TrafficSelector)
+from configuration import ConfigurationNotFound
+from message import (IkeSaError, Message, TrafficSelector)
 
 __author__ = 'Alejandro Perez-Mendez <alejandro.perez.mendez@gmail.com>'
 
@@ -44,11 +45,19 @@ class IkeSaController:
         return None
 
     def dispatch_message(self, data, my_addr, peer_addr):
-        header = Message.parse(data, header_only=True)
+        try:
+            header = Message.parse(data, header_only=True)
+        except IkeSaError as ex:
+            logging.warning(f'Received malformed message from {peer_addr}: {ex}. Omitting.')
+            return None
         # if IKE_SA_INIT request, then a new IkeSa must be created
         if header.exchange_type == Message.Exchange.IKE_SA_INIT and header.is_request:
             # look for matching configuration
-            ike_conf = self.configuration.get_ike_configuration(ip_address(my_addr), ip_address(peer_addr))
+            try:
+                ike_conf = self.configuration.get_ike_configuration(ip_address(my_addr), ip_address(peer_addr))
+            except ConfigurationNotFound as ex:
+                logging.warning(f'{ex}. Omitting.')
+                return None
             ike_sa = IkeSa(is_initiator=False, peer_spi=header.spi_i, configuration=ike_conf,
                            my_addr=ip_address(my_addr), peer_addr=ip_address(peer_addr))
             self.ike_sas.append(ike_sa)
@@ -207,6 +216,8 @@ class IkeSaController:
                 logging.error(f'Problem sending message: {ex}')
             except KeyError as ex:
                 logging.error(f'Could not find socket with the appropriate source address: {str(ex)}')
+            except (OSError, ConfigurationNotFound) as ex:
+                logging.error(f'Problem handling event: {ex}')
 
     def close(self):
         xfrm.Xfrm.flush_policies()
